@@ -17,6 +17,10 @@ import (
 type Pixels struct {
 	N   int
 	RGB [][3]uint8 // row-major
+	// Clear marks fully transparent pixels (nil: the image is opaque). Only the kinds that carry
+	// alpha (NRGBA, generic) materialise it; a transparent pixel's premultiplied colour, and so
+	// its luminance, is zero.
+	Clear []bool
 }
 
 // Content classes.
@@ -91,6 +95,23 @@ func DrawPixels(l *core.Lane, n int) (*Pixels, string) {
 			}
 		}
 	}
+	if l.Chance(1, 5) {
+		// a transparent region: a block, or scattered pixels
+		p.Clear = make([]bool, n*n)
+		if f.Intn(2) == 0 {
+			x0, y0, w := f.Intn(n), f.Intn(n), 1+f.Intn(n/2)
+			for y := y0; y < n && y < y0+w; y++ {
+				for x := x0; x < n && x < x0+w; x++ {
+					p.Clear[y*n+x] = true
+				}
+			}
+		} else {
+			for k := 1 + f.Intn(n*n/8); k > 0; k-- {
+				p.Clear[f.Intn(n*n)] = true
+			}
+		}
+		return p, ContentNames[class] + "+transparent"
+	}
 	return p, ContentNames[class]
 }
 
@@ -109,10 +130,11 @@ var KindNames = []string{"RGBA", "NRGBA", "Gray", "YCbCr444", "generic"}
 // GenericImage is an image.Image that is none of the concrete types the library has fast paths
 // for. OnAt, when set, is called at every At (a device event of the simulated world).
 type GenericImage struct {
-	R    image.Rectangle
-	Pix  [][3]uint8 // row-major over R
-	OnAt func()
-	Ats  int64
+	R     image.Rectangle
+	Pix   [][3]uint8 // row-major over R
+	Clear []bool     // fully transparent pixels (nil: opaque)
+	OnAt  func()
+	Ats   int64
 }
 
 // SetOnAt installs the At hook.
@@ -128,7 +150,11 @@ func (g *GenericImage) At(x, y int) color.Color {
 	if !(image.Point{x, y}.In(g.R)) {
 		return color.RGBA{}
 	}
-	p := g.Pix[(y-g.R.Min.Y)*g.R.Dx()+(x-g.R.Min.X)]
+	i := (y-g.R.Min.Y)*g.R.Dx() + (x - g.R.Min.X)
+	p := g.Pix[i]
+	if g.Clear != nil && g.Clear[i] {
+		return color.NRGBA{p[0], p[1], p[2], 0}
+	}
 	return color.RGBA{p[0], p[1], p[2], 255}
 }
 
@@ -176,6 +202,10 @@ func (p *Pixels) Materialise(kind int, ox, oy int, sub bool, pad int, fill *core
 				m.SetNRGBA(x, y, color.NRGBA{c[0], c[1], c[2], 255})
 				if in {
 					lum[(y-oy)*n+(x-ox)] = l601(float64(c[0]), float64(c[1]), float64(c[2]))
+					if p.Clear != nil && p.Clear[(y-oy)*n+(x-ox)] {
+						m.SetNRGBA(x, y, color.NRGBA{c[0], c[1], c[2], 0})
+						lum[(y-oy)*n+(x-ox)] = 0
+					}
 				}
 			}
 		}
@@ -224,10 +254,13 @@ func (p *Pixels) Materialise(kind int, ox, oy int, sub bool, pad int, fill *core
 			img = m.SubImage(rect)
 		}
 	default:
-		g := &GenericImage{R: rect, Pix: make([][3]uint8, n*n)}
+		g := &GenericImage{R: rect, Pix: make([][3]uint8, n*n), Clear: p.Clear}
 		copy(g.Pix, p.RGB)
 		for i, c := range p.RGB {
 			lum[i] = l601(float64(c[0]), float64(c[1]), float64(c[2]))
+			if p.Clear != nil && p.Clear[i] {
+				lum[i] = 0
+			}
 		}
 		img = g
 	}
